@@ -512,6 +512,7 @@ def decide_stream(res, *, module, theorems, stream, harness_name, lines, oracle,
     cmp = compare or (lambda l, a, b: a == b)
     keys = set()
     concrete = 0
+    unmodelled = 0
     mism = []
     classes = {}
     known = {k['class']: k for k in known_findings(pid)}
@@ -534,7 +535,9 @@ def decide_stream(res, *, module, theorems, stream, harness_name, lines, oracle,
                             j -= 1
                         rtxt = '\n'.join(lines[j:i + 1])
                     res.violation(rtxt, 'property oracle fails on the implementation: %s -> %s%s' % (l[:200], impl[i][:200], (' (model: %s)' % model[i][:200]) if model else ''))
-        if model is not None and not cmp(l, impl[i], model[i]):
+        if model is not None and 'UNMODELLED' in model[i]:
+            unmodelled += 1              # outside what the model covers (stated per check): judged by the oracle only
+        elif model is not None and not cmp(l, impl[i], model[i]):
             if not (ok is False):
                 mism.append(i)
     for klass, n in classes.items():
@@ -549,7 +552,7 @@ def decide_stream(res, *, module, theorems, stream, harness_name, lines, oracle,
     if problems and not concrete:
         res.violation('\n'.join(problems), 'proof obligation of %s no longer checks: %s' % (pid, problems[0][:300]), no_input=True)
     res.cov.update(evaluations=len(lines), distinct_nontrivial=len(keys), aborts=len(aborts),
-                   mismatches=len(mism), oracle_failures=concrete, known_class_hits=classes,
+                   mismatches=len(mism), unmodelled_lines=unmodelled, oracle_failures=concrete, known_class_hits=classes,
                    samples=[dict(input=lines[i][:300], impl=impl[i][:300], model=(model[i][:300] if model else None))
                             for i in sorted(set([0, len(lines) // 2, len(lines) - 1]))],
                    run_s=round(time.time() - t1, 2))
